@@ -43,7 +43,14 @@ func TestWorker(t *testing.T) {
 	w := bufio.NewWriter(out)
 	for i, spec := range job.Specs {
 		fmt.Fprintf(jr, "BEGIN %d\n", i)
+		JournalMark = func(tag string) {
+			if tag == "" {
+				tag = "-"
+			}
+			fmt.Fprintf(jr, "MARK %d %s\n", i, tag)
+		}
 		res := RunOne(t, spec)
+		JournalMark = nil
 		b, _ := json.Marshal(res)
 		w.Write(b)
 		w.WriteByte('\n')
